@@ -14,6 +14,7 @@ import (
 	"github.com/gmrtd/gmrtd/passiveauth"
 	"github.com/gmrtd/gmrtd/password"
 	"github.com/gmrtd/gmrtd/reader"
+	"github.com/gmrtd/gmrtd/verifhook"
 	"github.com/gmrtd/gmrtd/verifier"
 )
 
@@ -25,6 +26,7 @@ var (
 
 func PreloadCscaCertPool() error {
 	cscaOnce.Do(func() {
+		verifhook.Event("csca.init")
 		cscaCertPool, cscaInitErr = cms.DefaultMasterList()
 	})
 	return cscaInitErr
